@@ -38,6 +38,9 @@ def pick_type(rng: random.Random, types, have: int):
 
 def pick_operands(rng: random.Random, t: str, pool: list, max_arity: int, allow_repeat=True):
     if t in CONST:
+        # cirbo's own generators emit constants that carry (ignored) operands, e.g. ALWAYS_FALSE(x, x)
+        if pool and rng.random() < 0.25:
+            return tuple(rng.choice(pool) for _ in range(rng.randint(1, 2)))
         return ()
     if t in UNARY:
         return (rng.choice(pool),)
